@@ -13,7 +13,7 @@ cxx = False
 fixed_lines = 0
 lean_modules = ["Driver.Convert"]
 rule = ("ops: 'c val|vval|consume|argv src tgt value' = one conversion through mpt_data_converter(src) / mpt_value_convert / mpt_iterator_consume / a variadic call (mpt_process_vararg, mpt_value_argv), performed with "
-        "and without destination (tgt may be 'l' = long); 'c null src tgt' = the converter with a NULL source; 'c skip' / 'c consume-none' = the type-0 and no-value branches of mpt_iterator_consume; "
+        "and without destination (tgt may be 'l' = long); 'c null src tgt' = the converter with a NULL source, 'c vnull' = mpt_value_convert of a value without address; 'c ftoken tgt hex' = one token of a text file through the file iterator (mpt_iterator_file) and mpt_iterator_consume; 'c argvreset src v1 v2' = two variadic values read, the iterator reset, read again; 'c skip' / 'c consume-none' = the type-0 and no-value branches of mpt_iterator_consume; "
         "'c sweep src tgt lo hi' = the same for every integer of the range, summarised (verdict "
         "runs, inexact results, query-mode differences); 'c text fn tgt hex' = numeral text through mpt_convert_number / "
         "mpt_convert_string / mpt_c[u]intN (fn cint) / mpt_cchar..mpt_culong (fn cnat); 'c ftext' = the same for f/d/e targets, the model side running its decimal strtod model (oracle word for hex/inf/nan); "
@@ -303,6 +303,13 @@ def rounded_result(op):
             if v.startswith("~"):
                 return "n=%s out=%s" % (k, v[1:])
         return None
+    if len(w) == 5 and w[1] == "ftoken" and w[2] in FLTS:
+        alts = [a.split(":") for a in w[4].split(",")] if w[4] not in ("-", "0:-") else []
+        if alts:
+            k, v = max(alts, key=lambda a: int(a[0]))
+            if v.startswith("~"):
+                return "out=%s" % v[1:]
+        return None
     if len(w) == 5 and w[1] == "fpoint" and w[2] == "text":
         alts = [a.split(":") for a in w[4].split(",")] if w[4] != "-" else []
         full = [v for k, v in alts if int(k) == len(bytes.fromhex(w[3]))]
@@ -420,6 +427,28 @@ def _scripts(tier, seed, scale=1):
     ops = ["c skip %s %s" % (s_, "5" if s_ in INTS else fhex(s_, Fraction(5))) for s_ in ALL]
     ops += ["c consume-none %s" % t_ for t_ in list(ALL) + ["l"]]
     out += _chunks("iter", ops, 13)
+    # ---- values without address, numbers of a text file (file iterator), the vararg iterator across a reset
+    out += _chunks("vnull", ["c vnull %s %s" % (s_, t_) for s_ in ALL for t_ in ALL], 16)
+    ops = []
+    for t_ in TEXT_TGT:
+        nums = [x for x in _numerals(t_) if x and not any(ch in x for ch in " \t\n\r\v\f\0") and len(x) < 200]
+        ops += ["c ftoken %s %s 0:-" % (t_, gen.hexs(x.encode("utf-8", "surrogateescape"))) for x in (nums if thorough else nums[::3])]
+    out += _chunks("ftoken:int", ops, 12)
+    ops = []
+    for t_ in "fd":
+        for w_ in ["0.5", "-2", "1e39", "-1e39", "1e38", "3.4028235e38", "3.4028236e38", "1e308", "1e309", "-1e309", "0.1", "16777217", "abc", "1e", "0x1p4", "inf",
+                   "nan", "1.5x", "1e-50", "1e-400", "9007199254740993", "12345678901234567890123", ".5", "5.", "-.5e1", "+7"]:
+            data = w_.encode()
+            alts = ftext_oracle(t_, data)
+            ops.append("c ftoken %s %s %s" % (t_, gen.hexs(data), ",".join("%d:%s" % a for a in alts) or "0:-"))
+    out += _chunks("ftoken:flt", ops, 12)
+    ops = []
+    for s_ in "iuxt":
+        pts = _near([INTS[s_][0], INTS[s_][1], 0, 11, 22], INTS[s_][0], INTS[s_][1], 1)
+        ops += ["c argvreset %s %d %d" % (s_, pts[k], pts[(k * 5 + 2) % len(pts)]) for k in range(len(pts))]
+    fp = _float_points("d")
+    ops += ["c argvreset d %s %s" % (fhex("d", fp[k]), fhex("d", fp[(k * 7 + 3) % len(fp)])) for k in range(0, len(fp), 1 if thorough else 9)]
+    out += _chunks("argvreset", ops, 12)
     # ---- stream 3: random
     r = gen.rng(id, tier, seed, "random")
     nrand = (2000 if not thorough else 60000) * scale
